@@ -201,6 +201,15 @@ class Simulation:
                 msg,
             )
 
+        if period.unit == periods.DateUnit.ETERNITY:
+            msg = (
+                f"Unable to ADD variable '{variable.name}' over the period "
+                f"{period}: a variable can't be summed over eternity."
+            )
+            raise ValueError(
+                msg,
+            )
+
         if variable.definition_period not in (
             periods.DateUnit.isoformat + periods.DateUnit.isocalendar
         ):
